@@ -39,6 +39,7 @@ const DECOS: &[(&str, &str)] = &[
     ("many blanks", "      "),
     ("splice", " \\\n"),
     ("splice twice", " \\\n \\\n"),
+    ("splice right after a token", "\\\n "),
 ];
 
 /// gaps between tokens where decoration may go: index into the token list, with a flag telling
@@ -558,7 +559,7 @@ impl Monitor for C11 {
     fn thresholds(&self, _tier: &Tier) -> Vec<(String, u64)> {
         vec![
             ("distinct_nontrivial".into(), 2000),
-            ("set:decoration kinds applied".into(), 19),
+            ("set:decoration kinds applied".into(), 20),
             ("option variants compared".into(), 5000),
             ("multi-file variants compared".into(), 500),
             ("included assembler files compared".into(), 200),
